@@ -299,3 +299,38 @@ def _entry_arr(s, key):
     while a.op == "store" and a not in stop:
         a = a.args[0]
     return a
+
+
+def unit_rewrite_scaling(twin=False):
+    """write_mass_action_eqn_x: a token whose master species must be rewritten is replaced by its secondary reaction times the
+    token's coefficient; the electrons that reaction brings in (coef_e per unit) are replaced by the chosen redox couple times
+    coefficient x coef_e — every addition is scaled by the token's stoichiometric coefficient."""
+    from props.common import find_nodes, region, live, ctx as mkctx, text_of, fld0, local
+    q = "Phreeqc::write_mass_action_eqn_x"
+    fn = A.find_function(PREP, q)
+    r = U.new_unit("C01.write_mass_action_eqn_x.rewrite_scaled_by_token_coefficient", PREP, q, fn)
+    blocks = find_nodes(fn, PREP, lambda t, x: text_of(PREP, x["inner"][0]) == "trxn.token[i].s->secondary->in==REWRITE", kinds=("IfStmt",))
+    if len(blocks) != 1:
+        raise Undecided("rewrite block of write_mass_action_eqn_x not found (%d)" % len(blocks))
+    c = mkctx(functional=("rxn_find_coef", "equal"))
+    f, ex, fin, info = region(PREP, q, [blocks[0]], c)
+    n = 0
+    for s in live(fin):
+        adds = [e for e in s.events if e.name.split("::")[-1] == "trxn_add"]
+        if not adds:
+            continue
+        n += 1
+        ce = [e.result for e in s.events if e.name.endswith("rxn_find_coef")]
+        # token coefficient: trxn.token[i].coef
+        coef_terms = [t for t in tm.subterms(adds[0].args[1]) if t.op == "select" and t.args[0].op == "sym" and ".coef:" in t.args[0].args[0]]
+        if len(coef_terms) != 1 or adds[0].args[1] is not coef_terms[0]:
+            r.add("secondary_reaction.added_times_token_coefficient", FAILED, "trace", 0, repr(adds[0].args[1])[:120], kind="trace"); continue
+        r.add("secondary_reaction.added_times_token_coefficient", DISCHARGED, "trace", 0, "", kind="trace")
+        ci = coef_terms[0]
+        for e in adds[1:]:
+            want = ci * ce[0] if ce and not twin else ce[0] if ce else None
+            ok = want is not None and B.sympy_equal(e.args[1], want)[0]
+            r.add("redox_couple.added_times_token_coefficient_x_electrons", DISCHARGED if ok else FAILED, "sympy", 0, repr(e.args[1])[:160])
+    r.add("reach.rewrite_paths", DISCHARGED if n >= 2 else UNDECIDED, "symex", 0, "%d" % n, kind="vacuity")
+    r.assumptions += ["trxn_add(rxn, c, combine) adds c x rxn to the work reaction (body not under contract)", "which couple (pe_x entry) is used is not pinned"]
+    return r
